@@ -439,7 +439,8 @@ impl<'r, 'a> St<'r, 'a> {
                 BodyOp::WaitBlocked(t, l) => s.wait_blocked(*t, *l),
                 BodyOp::NonAcq(op, t) => self.nonacq(*op, *t),
                 BodyOp::StealHolds => {
-                    if ctx.acq.api.is_scoped() {
+                    // (not from a privately rebuilt target: what is stolen must not outlive it)
+                    if ctx.acq.api.is_scoped() || ctx.private {
                         continue;
                     }
                     match h.steal() {
@@ -487,11 +488,12 @@ impl<'r, 'a> St<'r, 'a> {
                     crate::caps::REFLECT.with(|a| a.set(false));
                     match crate::caps::REFLECTED.with(|l| l.take()) {
                         Some((addr, rw)) => {
+                            // used only here, while the guard that handed it out is alive (the
+                            // reference may be tied to the guard's borrow)
                             self.probe(|p| p.lock_refs_kept += 1);
                             let lid = ctx.flat[*i].lid;
-                            let mut ex = self.r.world.exposed.lock().unwrap();
-                            if !ex.iter().any(|e| e.0 == lid) {
-                                ex.push((lid, addr, rw));
+                            if let Some(u) = ctx.flat[*i].unit.filter(|u| *u < self.r.world.spec.units.len() && self.r.world.spec.units[*u].by_ref) {
+                                self.r.world.dup_verdict_with_member(u, addr, rw, lid, s);
                             }
                         }
                         None => self.probe(|p| p.lock_ref_refused += 1),
@@ -747,7 +749,9 @@ impl<'r, 'a> St<'r, 'a> {
                     // a concurrent unwind may still set the flag after this clear: uncertain; so is a
                     // clear from inside a destructor during an unwind (whatever guard is still alive
                     // there is dropped while thread::panicking())
-                    e.may = flying || self.in_unwind;
+                    // (under injected raw-lock faults a panic may strike inside any call at any
+                    // moment and the model only hears of it once the unwind is over: uncertain throughout)
+                    e.may = flying || self.in_unwind || self.raw_faults();
                 }
             }
         }
@@ -1267,8 +1271,6 @@ impl<'r, 'a> Th<'r, 'a> {
                 SNode::RefB(h) => self.run_api(h.get(), ctx),
                 SNode::PBoxedV(c) => self.run_api(&**c, ctx),
                 SNode::PRetryB(c) => self.run_api(&**c, ctx),
-                SNode::BoxedVM(c) => self.run_api(c, ctx),
-                SNode::BoxedVR(c) => self.run_api(c, ctx),
                 SNode::BoxedA2(c) => self.run_api(c, ctx),
                 SNode::RetryA3(c) => self.run_api(&**c, ctx),
             },
@@ -1282,6 +1284,11 @@ impl<'r, 'a> Th<'r, 'a> {
         let world = self.st.r.world;
         let s = self.st.s();
         let spec_t = world.spec.targets[t].clone();
+        // once the run's verdict is frozen every thread runs on unchecked: nothing that other
+        // threads may still be using is taken apart any more
+        if s.lock().abort {
+            return;
+        }
         let node = match world.take_target(t) {
             Some(n) => n,
             None => return,
@@ -1453,6 +1460,27 @@ impl<'r, 'a> Th<'r, 'a> {
                         self.kh.leaked = true;
                     }
                 }
+                KeyOp::GetMany(n) => {
+                    self.st.probe(|p| p.key_probes += *n as u64);
+                    for k in 0..*n {
+                        let got = ThreadKey::get();
+                        let expect_some = !self.kh.alive;
+                        if got.is_some() != expect_some {
+                            s.report(Clause::KeyModel, format!("request {} of {} in a row: ThreadKey::get() returned {} but the model says the thread's key is {}", k + 1, n, if got.is_some() { "Some" } else { "None" }, if self.kh.alive { "alive" } else { "not alive" }));
+                        }
+                        if let Some(key) = got {
+                            self.kh.alive = true;
+                            if self.kh.key.is_none() {
+                                self.kh.key = Some(key);
+                            } else {
+                                self.kh.extra.push(key);
+                            }
+                            if !expect_some {
+                                break;
+                            }
+                        }
+                    }
+                }
                 KeyOp::Send => {
                     #[allow(unused_imports)]
                     use crate::caps::CapNo as _;
@@ -1534,7 +1562,7 @@ impl<'r, 'a> Th<'r, 'a> {
         }
     }
 
-    fn after_raw_fault(&mut self, step: &Step, recs: &[ApiRec]) {
+    fn after_raw_fault(&mut self, step: &Step, _recs: &[ApiRec]) {
         let s = self.st.s();
         let tid = self.st.tid;
         // a raw-lock panic that unwinds through live guards may poison what they cover
@@ -1544,20 +1572,6 @@ impl<'r, 'a> Th<'r, 'a> {
             let mut m = self.st.r.model.lock().unwrap();
             for p in ids {
                 m.poison.entry(p).or_default().may = true;
-            }
-            // ... and *must* poison the Poisonable members whose exclusive hold was still live
-            // when the release of another member panicked while a guard was being released
-            // (the panic unwinds through the rest of the guard)
-            if !a.rebuild && !a.api.is_scoped() {
-                for rec in recs.iter().filter(|r| r.kind == ApiKind::Release) {
-                    for &lid in &rec.live_excl_at_unlock_fault {
-                        for d in 0..spec.leaves[lid].layers() {
-                            let e = m.poison.entry(PoisonId::Leaf(lid, d)).or_default();
-                            e.must = true;
-                            e.must_direct = true;
-                        }
-                    }
-                }
             }
         }
         // every lock other than those whose own operation panicked must be free of this thread
@@ -2187,7 +2201,7 @@ fn tiny_order_checks(sched: &Sched, seed: u64) {
             key = k2;
             let base = if use_m { ms.as_ptr() as usize } else { rs.as_ptr() as usize };
             let sz = if use_m { std::mem::size_of::<TinyM>() } else { std::mem::size_of::<TinyR>() };
-            seqs.push(seq.iter().filter(|(_, op)| !op.is_release()).map(|(a, _)| (a - base) / sz).collect());
+            seqs.push(seq.iter().filter(|(_, op)| matches!(op, crate::sched::RawOp::Lock | crate::sched::RawOp::LockExcl | crate::sched::RawOp::LockShared)).map(|(a, _)| (a - base) / sz).collect());
         }
         let mut g = sched.lock();
         g.stats.order_checks_tiny += 1;
